@@ -4,8 +4,6 @@ import os
 import re
 import vlib
 
-KEY = "ir-extra-key-promoted"
-
 META = {
     "id": "C36",
     "engine": "iring",
@@ -61,10 +59,9 @@ def evaluate(ctx, cases, name="cases"):
     for off in range(0, len(cases), CH):
         lit = vlib.coq_list(cases[off:off + CH], coq_case)
         jobs.append((name, PRELUDE + "Definition cases : list case := %s.\n" % lit,
-                     {"model": "model_mismatches cases", "full": "ref_full_mismatches cases",
-                      "partial": "ref_partial_mismatches cases", "known": "known_class cases"}))
+                     {"model": "model_mismatches cases", "full": "ref_full_mismatches cases", "promoted": "promoted_class cases"}))
         offs.append(off)
-    res = {"model": set(), "full": set(), "partial": set(), "known": set()}
+    res = {"model": set(), "full": set(), "promoted": set()}
     for off, r in zip(offs, ctx.coq_eval_many(jobs)):
         if r is None:
             return None
@@ -129,17 +126,14 @@ def run(ctx):
         ctx.tie(False)
         return
     ctx.tie(not r["model"])      # implementation = model
-    ctx.tie(not r["partial"])    # implementation satisfies the proved statements
-    unknown = r["full"] - r["known"]
-    ctx.tie(not unknown)         # the full property fails only inside the recorded class
-    for i in sorted((r["partial"] | unknown), key=lambda i: size(cases[i]))[:1]:
-        ctx.violation(show(minimise(ctx, binp, cases[i], lambda rr: (rr["partial"] | (rr["full"] - rr["known"]))),
-                           "property violated outside the known class (no extra inner-ring key among the new alphabet keys)"))
+    ctx.tie(not r["full"])       # implementation satisfies the property (reference = right-hand sides of the theorems), no excluded class
+    for i in sorted(r["full"], key=lambda i: size(cases[i]))[:1]:
+        ctx.violation(show(minimise(ctx, binp, cases[i], lambda rr: rr["full"]),
+                           "property violated: new alphabet (size / duplicates / members / bound / proposed though unchanged) or derived inner ring list "
+                           "(duplicates / does not differ from the old list exactly by the replaced keys)"))
     for i in sorted(r["model"], key=lambda i: size(cases[i]))[:1]:
         ctx.violation(show(minimise(ctx, binp, cases[i], lambda rr: rr["model"]), "implementation differs from model IRing.Alphabet.pipeline"))
-    known_fail = sorted(r["full"] & r["known"], key=lambda i: size(cases[i]))
-    for i in known_fail[:1]:
-        ctx.violation(show(cases[i], "an inner-ring key outside the alphabet is one of the new alphabet keys: it appears twice in the new inner ring list"), key=KEY)
+    promoted = sorted(r["promoted"], key=lambda i: size(cases[i]))
     kinds, stats, sizes = {}, {}, {}
     for c in cases:
         kinds[c["kind"]] = kinds.get(c["kind"], 0) + 1
@@ -152,8 +146,8 @@ def run(ctx):
         "rule": "universe of 8 real secp256r1 keys; pairs (current alphabet of 1..7 keys, main-network list at least that large) enumerated (quick: a random sixteenth, "
                 "thorough: all, one inner-ring list each), inner ring = alphabet + 0..2 extra keys, all lists shuffled; plus random lists with duplicates / short lists / "
                 "inner rings missing alphabet keys (model tie only); non-trivial = a new alphabet was proposed; distinct by the three key sets",
-        "samples": [show(cases[i], "sample") for i in (known_fail[:1] + [len(cases) // 2, len(cases) - 1])],
+        "samples": [show(cases[i], "sample") for i in (promoted[:1] + [len(cases) // 2, len(cases) - 1])],
         "hist_kind": kinds, "hist_alphabet_status": stats, "hist_current_alphabet_size": sizes,
-        "known_class_cases": len(r["known"]), "full_property_failures_in_known_class": len(known_fail),
+        "cases_with_extra_inner_ring_key_promoted_to_alphabet": len(promoted),
         "traces_validated_against_impl": len(cases),
     })
